@@ -444,7 +444,13 @@ def run_impl_cases(cases, build="compiled", hashseed=0, opts=None, timeout=1800)
     out = []
     for r in rs:
         out += r["cases"]
+    for c, ol in zip(cases, out):
+        if ol and ol[0].get("crash"):
+            CRASHES.append((c, ol[0]["crash"]))
     return out
+
+
+CRASHES = []      # (case, traceback): the library raised while a read-only observation was being made
 
 
 def error_free_prefix(cases, obs):
@@ -512,6 +518,13 @@ def leaves_of(case):
 def decide(ctx, proof_ok, cases, observations, mism, failures, replay_extra=None, search=None):
     """failures: list of (case index, op index, description) found by the property
     oracle on the implementation.  mism: model/implementation mismatches."""
+    ctx.obligations.append(("the library never raised while it was only being observed (dump(), str(ref), indices, verify(), oracle reads)",
+                            not CRASHES, f"{len(CRASHES)} histories"))
+    if CRASHES:
+        c, tb = CRASHES[0]
+        vlib.violation(ctx, {"kind": "oracle", "what": "the library raised while a read-only observation was made after an operation: " + tb[-600:],
+                             "case": c})
+        return
     ctx.obligations.append(("correspondence: model = implementation after every operation of every history "
                             "(exception class, run trace, container contents, task list, the four indices with multiplicities)",
                             not mism, f"{len(mism)} mismatching cases"))
